@@ -102,7 +102,9 @@ def run_history(steps, family, rec, case=None):
     b = BASELINES[bkey]
     fam = b["family"]
     case = case or {"kind": "history", "family": family, "steps": steps}
-    m, base_data = zoo.fitted(b)
+    # the object under test is the one fit() worked on (a deep copy would hide containers shared between model objects);
+    # CalTRACK fits take tens of seconds and stay memoised
+    m, base_data = zoo.fitted(b) if fam == "caltrack" else zoo.fit_fresh(b)
     snapshot = json.loads(m.to_json())
     pristine = copy.deepcopy(m)
     pool = {}
@@ -153,9 +155,19 @@ def run_history(steps, family, rec, case=None):
             m.to_dict()
         elif op == "fit_other":
             ob = dict(b, noise_seed=b["noise_seed"] + 50 + step[1], start_day=b["start_day"] + 30)
+            # another meter, another model object, other (non-developer) calendar maps, noisier usage
+            ob["noise"] = [0.05, 0.3, 0.6][step[1]]
+            if fam == "daily":
+                ob["profile"] = ["legacy_dev_splits", "legacy_weekday", "legacy_season"][step[1]]
+            elif fam == "billing":
+                ob["profile"] = ["billing", "billing_season", "billing"][step[1]]
             if fam == "caltrack":
                 ob["n"] = 130
-            zoo.fitted(ob)
+                zoo.fitted(ob)
+            else:
+                zoo.fit_fresh(ob)
+        elif op == "construct_other":
+            zoo.decoys(fam)
         elif op == "touch":
             key, d = get_data(step[1], True)
             f1 = d.df
@@ -218,6 +230,7 @@ step_strategy = st.one_of(
     st.tuples(st.just("predict"), st.integers(0, len(SPANS)), st.booleans(), st.just(True), st.just(False)),
     st.tuples(st.just("serialise")),
     st.tuples(st.just("fit_other"), st.integers(0, 2)),
+    st.tuples(st.just("construct_other")),
     st.tuples(st.just("touch"), st.integers(0, len(SPANS) - 1)),
 )
 
